@@ -9,9 +9,20 @@ from verif_sa.pe import P, Normalizer, decision_list, first_difference
 from .common import eq_const
 
 
+PROVED_NAMES = ("guess_bond_order", "max_bond_length", "bond_params", "angle_params", "dihedral_params", "typekey")
+
+
 def _sym_check(fn, ident, swapped, normalizer):
-    a = decision_list(fn.node, ident, normalizer)
-    b = decision_list(fn.node, swapped, normalizer)
+    repo = fn.repo
+
+    def resolver(name):
+        # private helpers of the same module may be inlined; functions whose symmetry is proved separately stay calls
+        if name in PROVED_NAMES or name in normalizer.comm_calls:
+            return None
+        c = repo.fns.get((fn.module.name, name))
+        return c.node if c is not None and c is not fn and c.cls is None else None
+    a = decision_list(fn.node, ident, normalizer, resolver=resolver)
+    b = decision_list(fn.node, swapped, normalizer, resolver=resolver)
     return a, b, first_difference(a, b)
 
 
@@ -51,12 +62,12 @@ def D1_symmetry(repo, clause, funcs=None):
         else:
             i, x, y = diff
             detail = "NOT symmetric under %s: path #%d differs: %s  VERSUS  %s" % (desc, i, _short(x), _short(y))
-        obs.append(Ob("D1", clause, fn, fn.node, ok, detail, construct="def %s" % name, slot="symmetric:%s" % name))
+        obs.append(Ob("D1", clause, fn, fn.node, ok, detail, construct="def %s" % name, slot="symmetric:%s" % name, positive=True))
         # per-path obligations make the evidence concrete
         for i, (pa, pb) in enumerate(zip(a, b)):
             if pa != pb and ok is False:
                 obs.append(Ob("D1", clause, fn, fn.node, False, "path #%d: %s != %s" % (i, _short(pa), _short(pb)),
-                              construct="def %s path %d" % (name, i), slot="path:%s:%d" % (name, i)))
+                              construct="def %s path %d" % (name, i), slot="path:%s:%d" % (name, i), positive=True))
     if funcs is None or "typekey" in funcs:
         obs.extend(_typekey_min_idiom(repo, clause))
     return obs
@@ -93,8 +104,10 @@ def _typekey_min_idiom(repo, clause):
                     and call_name(v.args[0]) == "reversed":
                 R, how = name, "reversed(%s)" % T
     if R is None:
+        no_reversal = not any((isinstance(x, ast.Call) and call_name(x) in ("reverse", "reversed", "flip", "min", "max", "sorted")) or
+                              (isinstance(x, ast.Slice) and x.step is not None) for x in ast.walk(fn.node))
         obs.append(Ob("D1", clause, fn, fn.node, False, "typekey: reversed copy of the sequence not found (no canonicalisation under reversal)",
-                      construct="def typekey", slot="symmetric:typekey"))
+                      construct="def typekey", slot="symmetric:typekey", positive=no_reversal))
         return obs
 
     def is_seq(e, name):
@@ -103,6 +116,7 @@ def _typekey_min_idiom(repo, clause):
         return isinstance(e, ast.Call) and call_name(e) in ("tuple", "list") and len(e.args) == 1 and isinstance(e.args[0], ast.Name) and e.args[0].id == name
 
     ok = False
+    partial_cmp = False
     detail = "comparison/return structure not recognised as min(sequence, reversed sequence)"
     ifs = [s for s in stmts if isinstance(s, ast.If)]
     rets = [s for s in stmts if isinstance(s, ast.Return)]
@@ -125,11 +139,15 @@ def _typekey_min_idiom(repo, clause):
                 detail = "typekey does not return exactly {sequence, reversed sequence} on its two branches"
         elif not full:
             detail = "typekey compares %s, not the whole sequence against its whole reversal: ties are broken asymmetrically" % ast.unparse(t)
+            partial_cmp = True
     elif mins:
         c = mins[0]
         ok = len(c.args) == 2 and ((is_seq(c.args[0], R) and is_seq(c.args[1], T)) or (is_seq(c.args[0], T) and is_seq(c.args[1], R)))
         detail = "typekey returns %s of the sequence and its reversal" % call_name(c)
-    obs.append(Ob("D1", clause, fn, ifs[0] if ifs else fn.node, ok, detail, slot="symmetric:typekey"))
+    only_t = (not ifs) and (not mins) and bool(rets) and all(is_seq(r_.value, T) for r_ in rets)
+    if only_t:
+        detail = "typekey returns the sequence itself on every path: a sequence and its reversal get different keys"
+    obs.append(Ob("D1", clause, fn, ifs[0] if ifs else fn.node, ok, detail, slot="symmetric:typekey", positive=only_t or partial_cmp))
     return obs
 
 
@@ -175,14 +193,14 @@ def D2_type_counts(repo, clause, kinds=("atom",) + KINDS, pair=True):
                         ok = False
                         why = "fallback count without a coefficient table is %s; it must be max(self.%s_types) + 1 so that every type id in use is declared" % (_short(val, 80), k)
                         obs.append(Ob("D2", clause, fn, fn.node, ok, "leaf #%d of num_%s_types: %s" % (i, k, why),
-                                      construct="def num_%s_types: leaf %d" % (k, i), slot="%s:leaf%d" % (k, i)))
+                                      construct="def num_%s_types: leaf %d" % (k, i), slot="%s:leaf%d" % (k, i), positive=True))
                         continue
                 why = ("returns %s on a path where the table is known to be empty" % _short(val, 60)) if empty else \
                     ("returns %s although self.%s may be NON-EMPTY on this path (conditions: %s): the count is then smaller than the table, "
                      "so merged type ids point at old rows and the written header disagrees with the Coeffs section"
                      % (_short(val, 60), tables[k], _short(conds, 120)))
             obs.append(Ob("D2", clause, fn, fn.node, ok, "leaf #%d of num_%s_types: %s" % (i, k, why),
-                          construct="def num_%s_types: leaf %d" % (k, i), slot="%s:leaf%d" % (k, i)))
+                          construct="def num_%s_types: leaf %d" % (k, i), slot="%s:leaf%d" % (k, i), positive=True))
     # tables appended by extend_types: self.T = np.append(self.T, other.T), one per kind (+3 atom-type tables)
     et = repo.fn("Atoms.extend_types")
     seen = {}
@@ -225,7 +243,8 @@ def _recognisable_count(val):
     if val[0] == "add" and any(isinstance(x, tuple) and x and x[0] in ("call", "mcall") and "max" in repr(x[:3]) for x in val[1:]):
         return True
     if val[0] == "call" and val[1] == "len":
-        return True
+        a_ = val[2][1] if len(val[2]) > 1 else None
+        return isinstance(a_, tuple) and a_[0] == "attr" and a_[1] == P("self")
     if val[0] == "or":
         return all(_recognisable_count(x) for x in val[1:])
     return False
@@ -521,51 +540,63 @@ def D4_windows(repo, clause):
     call = calls_named(find, "_get_positions_from_all_adjacent_unit_cells")
     if len(call) != 1:
         raise AnalysisError("D4: call of _get_positions_from_all_adjacent_unit_cells not found")
-    rarg = get_arg(call[0], win.params, win.params[1])
-    if not isinstance(rarg, ast.Name):
-        raise AnalysisError("D4: search radius is not passed as a local name")
-    Rname = rarg.id
-    uv = find.rd.unique_value(rarg)
-    if uv is None:
-        obs.append(Ob("D4", clause, find, call[0], False, "search radius %s has no unique definition" % Rname, slot="radius-def"))
-        return obs
-    rdef, rval = uv
-    aff = affine(rval)
-    atol_c = aff.get("atol", 0) if aff is not None else 0
-    base = [k for k in (aff or {}) if k not in ("atol", "")]
-    base_ok = False
-    base_txt = base[0] if len(base) == 1 else None
-    if base_txt is not None and aff[base_txt] == 1:
-        # base = sqrt(max of the pattern's squared-distance matrix)
-        m = re.match(r"^(\w+)\.max\(\) \*\* 0\.5$", base_txt) or re.match(r"^(?:np\.|math\.)?sqrt\((\w+)\.max\(\)\)$", base_txt)
-        if m:
-            mat = m.group(1)
-            mdef = [n for n in find.own_nodes() if isinstance(n, ast.Assign) and isinstance(n.targets[0], ast.Name) and n.targets[0].id == mat]
-            if len(mdef) == 1 and isinstance(mdef[0].value, ast.Call) and call_name(mdef[0].value) == "cdist":
-                c = mdef[0].value
-                a0, a1 = ast.unparse(c.args[0]), ast.unparse(c.args[1])
-                metric = const_value(c.args[2]) if len(c.args) > 2 else None
-                base_ok = a0 == a1 and a0.endswith(".positions") and a0.split(".")[0] == find.params[1] and metric == "sqeuclidean"
-        m2 = re.match(r"^(\w+)\.max\(\)$", base_txt)
-        if m2 and not base_ok:
-            mat = m2.group(1)
-            mdef = [n for n in find.own_nodes() if isinstance(n, ast.Assign) and isinstance(n.targets[0], ast.Name) and n.targets[0].id == mat]
-            if len(mdef) == 1 and isinstance(mdef[0].value, ast.Call) and call_name(mdef[0].value) == "cdist":
-                c = mdef[0].value
-                metric = const_value(c.args[2]) if len(c.args) > 2 else "euclidean"
-                base_ok = ast.unparse(c.args[0]) == ast.unparse(c.args[1]) and metric == "euclidean"
-    ok = aff is not None and base_ok and atol_c >= 1 and aff.get("", 0) >= 0
-    obs.append(Ob("D4", clause, find, rdef, ok,
-                  "search radius = 1 x (largest pattern distance: %s) + %s x atol (required: exactly the pattern diameter, tolerance coefficient >= 1)"
-                  % (base_txt if base_ok else "NOT RECOGNISED %s" % base, atol_c), slot="radius"))
-    # the same value feeds the cube filter
-    gn = repo.nested(find, "get_nearby_atoms")
+    gn = repo.nested(find, "get_nearby_atoms") if repo.maybe_fn("find_pattern_in_structure.get_nearby_atoms") else None
+    if gn is None:
+        raise AnalysisError("D4: per-start-atom cube filter (nested helper get_nearby_atoms) not found")
     gcalls = calls_named(find, "get_nearby_atoms")
-    ok = len(gcalls) >= 1 and all(any(isinstance(a, ast.Name) and a.id == Rname for a in c.args) for c in gcalls) and len(find.rd.gen[rdef]) == 1
-    nd = [n for n in find.own_nodes() if isinstance(n, ast.stmt) and Rname in find.rd.gen.get(n, ())]
-    ok = ok and len(nd) == 1
-    obs.append(Ob("D4", clause, find, gcalls[0] if gcalls else find.node, ok, "the per-start-atom cube filter receives the same radius value (%s, defined once)" % Rname,
-                  slot="radius-shared"))
+    consumers = [("image window", call[0], get_arg(call[0], win.params, win.params[1]))]
+    for gc in gcalls:
+        consumers.append(("cube filter", gc, get_arg(gc, gn.params, gn.params[2]) if len(gn.params) > 2 else None))
+    if len(consumers) < 2:
+        raise AnalysisError("D4: expected the image window and the cube filter as consumers of the search radius")
+
+    def radius_form(arg):
+        """(base term text, its coefficient, atol coefficient, constant, recognised base?) of the fully expanded radius argument"""
+        mats_ = [n.targets[0].id for n in find.own_nodes() if isinstance(n, ast.Assign) and isinstance(n.targets[0], ast.Name)
+                 and isinstance(n.value, ast.Call) and call_name(n.value) == "cdist"]
+        e = expand(find, arg, stop_names=mats_) if arg is not None else None
+        aff = affine(e) if e is not None else None
+        if aff is None:
+            return None
+        atol_c = aff.get("atol", 0)
+        base = [k for k in aff if k not in ("atol", "")]
+        return e, aff, atol_c, base
+
+    def base_is_diameter(base_txt):
+        m = re.match(r"^(\w+)\.max\(\) \*\* 0\.5$", base_txt) or re.match(r"^(?:np\.|math\.)?sqrt\((\w+)\.max\(\)\)$", base_txt)
+        metric_need = "sqeuclidean"
+        if not m:
+            m = re.match(r"^(\w+)\.max\(\)$", base_txt)
+            metric_need = "euclidean"
+        if not m:
+            return False
+        mat = m.group(1)
+        mdef = [n for n in find.own_nodes() if isinstance(n, ast.Assign) and isinstance(n.targets[0], ast.Name) and n.targets[0].id == mat]
+        if len(mdef) == 1 and isinstance(mdef[0].value, ast.Call) and call_name(mdef[0].value) == "cdist":
+            c = mdef[0].value
+            a0, a1 = ast.unparse(c.args[0]), ast.unparse(c.args[1])
+            metric = const_value(c.args[2]) if len(c.args) > 2 else "euclidean"
+            return a0 == a1 and a0.endswith(".positions") and a0.split(".")[0] == find.params[1] and metric == metric_need
+        return False
+
+    forms = []
+    for what, c, arg in consumers:
+        rf = radius_form(arg)
+        if rf is None:
+            obs.append(Ob("D4", clause, find, c, False, "%s: search radius argument is not an affine expression" % what, slot="radius:%s" % what))
+            continue
+        e, aff, atol_c, base = rf
+        base_txt = base[0] if len(base) == 1 else None
+        recog = base_txt is not None and aff[base_txt] == 1 and base_is_diameter(base_txt)
+        sub_max = base_txt is not None and re.search(r"\w+\[[^\]]+\]\.max\(\)", base_txt) is not None
+        ok = recog and atol_c >= 1 and aff.get("", 0) >= 0
+        forms.append(nf(e))
+        obs.append(Ob("D4", clause, find, c, ok,
+                      "%s: search radius = %s = 1 x (largest pattern distance%s) + %s x atol (required: the whole pattern diameter, tolerance coefficient >= 1)" % (
+                          what, ast.unparse(e)[:60], "" if recog else (": only the maximum of ONE ROW of the distance matrix" if sub_max else ": NOT RECOGNISED"), atol_c),
+                      slot="radius:%s" % what, positive=(recog and atol_c < 1) or sub_max))
+    obs.append(Ob("D4", clause, find, call[0], len(set(map(repr, forms))) == 1 and len(forms) == len(consumers),
+                  "both spatial filters receive the same radius value", slot="radius-shared", positive=len(forms) == len(consumers)))
     # --- windows in _get_positions_from_all_adjacent_unit_cells
     D = win.params[1]
     loops = [n for n in win.own_nodes() if isinstance(n, ast.For) and isinstance(n.iter, ast.Call) and call_name(n.iter) == "enumerate"]
